@@ -18,6 +18,8 @@ mod filtering;
 pub use filtering::verif_hooks as verif_filtering;
 #[cfg(feature = "trustfall_verif")]
 pub use hints::VerifNullableValue;
+#[cfg(feature = "trustfall_verif")]
+pub use hints::verif_hooks as verif_hints;
 pub mod helpers;
 mod hints;
 pub mod replay;
